@@ -68,27 +68,79 @@ def strip_none(t):
     return t
 
 
-def walk(t):
-    """Pre-order walk of all sub-terms."""
-    yield t
-    if not isinstance(t, tuple):
+def children(t):
+    """Direct sub-terms of a term (knows the layout of every tag)."""
+    if not isinstance(t, tuple) or not t or not isinstance(t[0], str):
         return
-    for x in t[1:]:
-        if isinstance(x, tuple):
-            if x and isinstance(x[0], str):
-                yield from walk(x)
+    tag = t[0]
+    if tag in ("const", "param", "self", "global", "local", "func", "unknown", "cyc", "sym", "q", "idx"):
+        if tag == "idx" and len(t) > 3 and isinstance(t[3], tuple):
+            for a in t[3]:
+                if isinstance(a, tuple):
+                    yield a
+        return
+    if tag == "call":
+        yield t[1]
+        for a in t[2]:
+            yield a
+        for _, v in t[3]:
+            yield v
+        return
+    if tag in ("tuple", "list", "set", "cols", "rows", "and", "or"):
+        for a in t[1]:
+            yield a
+        return
+    if tag == "dict":
+        for k, v in t[1]:
+            yield k
+            yield v
+        return
+    if tag == "phi":
+        for a in t[1]:
+            yield a
+        return
+    if tag == "gphi":
+        for lits, a in t[1]:
+            for l in lits:
+                yield l
+            yield a
+        return
+    if tag == "fstr":
+        for part in t[1]:
+            if part[0] == "fmt":
+                yield part[1]
             else:
-                for y in x:
-                    if isinstance(y, tuple):
-                        if y and isinstance(y[0], str) and y[0] in _TAGS:
-                            yield from walk(y)
-                        else:
-                            for z in y:
-                                if isinstance(z, tuple) and z and isinstance(z[0], str):
-                                    yield from walk(z)
+                yield part
+        return
+    if tag == "comp":
+        yield t[2]
+        yield t[4]
+        if isinstance(t[5], tuple):
+            for c in t[5]:
+                if isinstance(c, tuple) and c and isinstance(c[0], str) and c[0] != "nested":
+                    yield c
+        return
+    # generic: every element that is itself a term
+    for x in t[1:]:
+        if isinstance(x, tuple) and x and isinstance(x[0], str):
+            yield x
+        elif isinstance(x, tuple):
+            for y in x:
+                if isinstance(y, tuple) and y and isinstance(y[0], str):
+                    yield y
         elif isinstance(x, frozenset):
             for y in x:
-                yield from walk(y)
+                if isinstance(y, tuple) and y and isinstance(y[0], str):
+                    yield y
+
+
+def walk(t):
+    """Pre-order walk of all sub-terms."""
+    stack = [t]
+    while stack:
+        x = stack.pop()
+        yield x
+        stack.extend(children(x))
 
 
 _TAGS = {"const", "param", "self", "attr", "global", "call", "sub", "col", "cols", "bin",
